@@ -161,7 +161,17 @@ def fnum(x):
     return "inf" if x == math.inf else x
 
 
+def _import_quietly():
+    """bluebonnet's import registers a matplotlib scale and may emit (pending) deprecation warnings"""
+    with warnings.catch_warnings():
+        warnings.simplefilter("ignore")
+        import bluebonnet.fluids  # noqa: F401
+        import bluebonnet.forecast  # noqa: F401
+        import bluebonnet.plotting  # noqa: F401
+
+
 def run(ctx):
+    _import_quietly()
     quick = ctx.tier == "quick"
     rng = random.Random(ctx.seed)
     n_rt = 12 if quick else 150
@@ -231,6 +241,7 @@ def run(ctx):
 
 
 def replay(case):
+    _import_quietly()
     cfg = dict(case.get("input", case))
     clause = cfg.pop("clause", None) or case.get("clause")
     ok, observed, required = evaluate(clause, cfg)
